@@ -114,6 +114,13 @@ def run(tier, seed):
     pe = os.path.join(vlib.sub("mcb"), "penv.json")
     json.dump(dict(vars=[dict(n=list("HOME"), v=list("/h"))]), open(pe, "w"))
     out.add_mc("MC_Builders", vlib.tlc_mc("MC_Builders", workers=4, extra_env=dict(PENV=pe)))
+    # (c2) both backends: every tree of the C02 grid under three permission layouts (read-only / user-only / exec-only files),
+    # the observers mode / is_exec / is_readonly / entry / owner on every path (links included) and chmod in its builder
+    # variants (symbolic and octal, recursive or not, follow or not) on Stdfs in a sandbox and on Memfs; each side judged
+    # against the reference (PAIRMODE=ref)
+    from props import c02
+    for k in ("1", "2", "3"):
+        c02.grid(out, "perm" + k, tier, ["--perm", k, "--stride", "3" if thorough else "11"], pairmode="ref")
     # (d) schedules: a uid-only and a gid-only chown (a dirs-only and a files-only chmod) of the same tree on two threads -
     # every interleaving of their guards; the outcome must be that of one order (both updates present)
     from props import c04
